@@ -1,5 +1,6 @@
 """C15 — Language-server answers depend only on current texts, not on edit history (staleness protocol)."""
 from facts import callee_of, hir_walk
+import re
 import pathrules as P
 import mirflow as MF
 import c16
@@ -297,6 +298,25 @@ def changes_in_order(c, facts, R):
         c.bad(R, 'ranges-converted-before-applying', 'Workspace::change converts the ranges of a notification before applying them: later ranges are resolved against stale text')
 
 
+def change_applied(c, facts, R):
+    """every notification is applied: no successful return that did not look the document up (a change dropped because
+    of a version number, a flag or a size leaves the server's copy behind the client's for good)"""
+    ch = c.anchor(R, 'oal_client::lsp::Workspace::change')
+    look = {b2 for b2, t2 in ch.calls() if callee_of(t2) and P.strip(callee_of(t2)['def']).split('::')[-1] in ('get_mut', 'entry', 'get', 'remove', 'insert')
+            and t2['args'] and re.search(r'HashMap<[^,]*Locator, std::string::String', t2['args'][0].get('ty', ''))}
+    if not look:
+        c.bad(R, 'change:document-lookup-not-found', 'Workspace::change: cannot find the lookup of the document in Workspace.docs')
+    elif P.success_return_reachable(ch, 0, look):
+        c.bad(R, 'change:dropped-without-lookup', 'Workspace::change can return successfully without having looked the document up: some notifications are dropped and the server\'s copy of the text no longer follows the client\'s')
+    else:
+        c.ok(R, {'change': 'every successful return passes through the lookup of the document'})
+
+
+def r12_change_applied(c, facts, rule='C15.R12'):
+    R = c.rule(rule, 'CHANGE-APPLIED: Workspace::change applies every notification to the document it names')
+    change_applied(c, facts, R)
+
+
 def r4_change(c, facts):
     R = c.rule('C15.R4', 'CHANGE: incremental edits use converted byte offsets; full edits replace the text')
     ch = c.anchor(R, 'oal_client::lsp::Workspace::change')
@@ -370,6 +390,7 @@ def r4_change(c, facts):
         c.ok(R, {'full sync': '*text = change.text when no range is given'})
     else:
         c.bad(R, 'full-change-not-applied', 'a change without range no longer replaces the whole document')
+    change_applied(c, facts, R)
     changes_in_order(c, facts, R)
     RC = c.rule('C15.R7', 'CLAMP: a position past the end of a line or of the text is clamped, so the byte offsets handed to replace_range stay inside the text and the server stays alive (shared with C16.R3)')
     c.shared(RC, c16.r3_clamp, 'C16.R3', facts)
